@@ -10,7 +10,9 @@ import gen
 from common import fx, unfx, enc_list, close, rq
 
 REQUIRED = ['ipsw_saturated', 'gtransport_saturated', 'aipsw_outcome_saturated', 'aipsw_weights_balanced',
-            'aipsw_weights_saturated_unstab', 'rd_rr_def', 'target_outcomes_irrelevant', 'aipsw_fit_generated', 'ipsw_fit_generated']
+            'aipsw_weights_saturated_unstab', 'rd_rr_def', 'target_outcomes_irrelevant', 'aipsw_fit_generated', 'ipsw_fit_generated',
+            'gtransport_fit_generated', 'gtransport_fit_saturated', 'gtransport_fit_target_outcomes_irrelevant',
+            'ipsw_sampling_weight_generated', 'aipsw_sampling_weight_generated', 'treatment_site_generated']
 RULE = ('random combined data sets: a study sample (1-2 categorical modifiers, <= 8 strata, both arms and both outcome '
         'values in every stratum) plus a target sample with at least one row per stratum; target rows carry A = NaN, and '
         'Y = NaN or junk values (both variants are run and must agree); cells: IPSW+treatment model, GTransportFormula, '
@@ -155,6 +157,19 @@ def model_k(chk, drv, e, df, covs, g, stab, which, case):
                          ns=enc_list(np.broadcast_to(np.asarray(smp['__numer__'], dtype=float), (len(smp),)), fx),
                          ds=enc_list(smp['__denom__'], fx), tw=enc_list(e.iptw, fx), **kw)
         ok = rep['status'] == 'ok' and np.allclose([unfx(t) for t in rep['w'].split(',')], smp['__ipsw__'], rtol=1e-12)
+        # the per-row lines regenerated from IPSW.sampling_model (Gen/Sites.lean; no truncation requested here) on the
+        # harness's own reference fits of the two sampling models (all rows, unweighted) vs the stored columns
+        dref = smf.glm('S ~ ' + gen.sat_cov(covs), e.df, family=sm.families.family.Binomial()).fit().predict(smp)
+        nref = smf.glm('S ~ 1', e.df, family=sm.families.family.Binomial()).fit().predict(smp)
+        chk.h_checked += 1
+        rs, _ = drv.ask('site', kind='ipsw', gen=int(g), stab=int(stab), spec='other', falsy=1, d=enc_list(dref, fx),
+                        n=enc_list(nref, fx))
+        oks = rs['status'] == 'ok' and \
+            np.allclose([unfx(t) for t in rs['d'].split(',')], smp['__denom__'], rtol=1e-9) and \
+            np.allclose([unfx(t) for t in rs['n'].split(',')], smp['__numer__'], rtol=1e-9) and \
+            np.allclose([unfx(t) for t in rs['w'].split(',')], e.ipsw, rtol=1e-9)
+        chk.k(oks, 'IPSW.sampling_model stored columns = lines generated from its source on the reference fits',
+              dict(case, model={k: v[:80] for k, v in rs.items()}))
         rep2, _ = drv.ask('ipswfit', c='f', hasw=0, hasiptw=int(e.iptw is not None), ipsw=enc_list(e.ipsw, fx),
                           iptw=enc_list(np.ones(len(smp)) if e.iptw is None else e.iptw, fx), **kw)
         chk.k(rep2['status'] == 'ok' and close(unfx(rep2['rd']), e.risk_difference, rtol=1e-9, atol=1e-12) and
@@ -166,12 +181,26 @@ def model_k(chk, drv, e, df, covs, g, stab, which, case):
         rep, _ = drv.ask('gtrans', c='f', gen=int(g), q1=enc_list(e._outcome_model.predict(d1), fx),
                          q0=enc_list(e._outcome_model.predict(d0), fx), **enc(df, covs))
         ok = rep['status'] == 'ok'
+        gtransfit_k(chk, drv, e, df, covs, g, None, case)
     else:
         tw = np.ones(len(df)) if e.iptw is None else np.where(np.isnan(e.iptw), 0.0, e.iptw)
         rep, _ = drv.ask('aipsw', c='f', gen=int(g), stab=int(stab), ns=enc_list(e.df['__numer__'], fx),
                          ds=enc_list(e.df['__denom__'], fx), tw=enc_list(tw, fx), q1=enc_list(e._YA1, fx),
                          q0=enc_list(e._YA0, fx), **enc(e.df, covs))
         ok = rep['status'] == 'ok'
+        # the per-row lines regenerated from AIPSW.sampling_model (Gen/Sites.lean) on the harness's own reference fits
+        dref = smf.glm('S ~ ' + gen.sat_cov(covs), e.df, family=sm.families.family.Binomial()).fit().predict(e.df)
+        nref = smf.glm('S ~ 1', e.df, family=sm.families.family.Binomial()).fit().predict(e.df)
+        chk.h_checked += 1
+        rs, _ = drv.ask('site', kind='aipsw', gen=int(g), stab=int(stab), sample=enc_list(e.df['S'].astype(int).tolist(), str),
+                        d=enc_list(dref, fx), n=enc_list(nref, fx))
+        with np.errstate(all='ignore'):
+            oks = rs['status'] == 'ok' and \
+                np.allclose([unfx(t) for t in rs['d'].split(',')], e.df['__denom__'], rtol=1e-9) and \
+                np.allclose([unfx(t) for t in rs['n'].split(',')], e.df['__numer__'], rtol=1e-9) and \
+                np.allclose([unfx(t) for t in rs['w'].split(',')], e.ipsw, rtol=1e-9, equal_nan=True)
+        chk.k(oks, 'AIPSW.sampling_model stored columns = lines generated from its source on the reference fits',
+              dict(case, model={k: v[:80] for k, v in rs.items()}))
         # the definition generated from the text of AIPSW.fit, on the implementation's own arrays
         rep2, _ = drv.ask('aipswfit', c='f', gen=int(g), hasiptw=int(e.iptw is not None), ipsw=enc_list(e.ipsw, fx),
                           iptw=enc_list(tw, fx), q1=enc_list(e._YA1, fx), q0=enc_list(e._YA0, fx), **enc(e.df, covs))
@@ -182,6 +211,34 @@ def model_k(chk, drv, e, df, covs, g, stab, which, case):
         r1, r0 = unfx(rep['r1']), unfx(rep['r0'])
         ok = close(r1 - r0, e.risk_difference, rtol=1e-9, atol=1e-12) and close(r1 / r0, e.risk_ratio, rtol=1e-9)
     chk.k(ok, '%s estimates = model on the fitted values' % which, dict(case, model={k: v for k, v in rep.items() if k != 'w'}))
+
+
+def gtransfit_k(chk, drv, e, df, covs, g, wcol, case):
+    """the definition generated from the text of GTransportFormula.fit (Gen/Transport.lean), on the implementation's own
+    predictions for every row under A=1 / A=0, with (hasw=1) or without the frequency-weight column; also the rows the
+    generated outcome-model call site says the GLM is fitted on, against the fitted model's own nobs"""
+    if drv is None:
+        return
+    d1, d0 = df.copy(), df.copy()
+    d1['A'], d0['A'] = 1, 0
+    kw = enc(df, covs)
+    if wcol is not None:
+        kw['w'] = enc_list(df[wcol], fx)
+    rep, _ = drv.ask('gtransfit', c='f', gen=int(g), hasw=int(wcol is not None),
+                     q1=enc_list(e._outcome_model.predict(d1), fx), q0=enc_list(e._outcome_model.predict(d0), fx), **kw)
+    ok = rep['status'] == 'ok' and close(unfx(rep['rd']), e.risk_difference, rtol=1e-9, atol=1e-12) and \
+        close(unfx(rep['rr']), e.risk_ratio, rtol=1e-9)
+    chk.k(ok, 'GTransportFormula.fit = definition generated from its source', dict(case, model=rep))
+    # call site of the outcome GLM: fitted on the sampled rows (outcomes observed there), frequency-weighted iff a
+    # weight column is given -- the generated call site (rows, weight column or none) against the fitted model object
+    smp = df['S'].values == 1
+    fwm = np.asarray(e._outcome_model.model.freq_weights, dtype=float)
+    want_fw = df.loc[smp, wcol].values.astype(float) if wcol is not None else np.ones(int(smp.sum()))
+    chk.k(rep['status'] == 'ok' and int(rep.get('nfit', -1)) == int(smp.sum()) == int(e._outcome_model.nobs)
+          and (rep.get('fw') == '1') == (wcol is not None) and fwm.shape == want_fw.shape
+          and bool(np.array_equal(fwm, want_fw)),
+          'GTransportFormula.outcome_model: GLM fitted on the sampled rows with the frequency weights read from its source',
+          dict(case, model=rep, impl_nobs=float(e._outcome_model.nobs)))
 
 
 def run(chk, drv, rng, tier):
@@ -301,6 +358,7 @@ def run(chk, drv, rng, tier):
                       'GTransportFormula with frequency weights = weighted sample cell means standardized to the weighted %s'
                       % ('population' if g else 'non-sampled rows'),
                       dict(case, impl=[float(ew.risk_difference), float(ew.risk_ratio)], want=want))
+                gtransfit_k(chk, drv, ew, dfw, covs, g, 'fw', case)
             except Exception as ex:      # noqa: BLE001
                 chk.d(False, 'GTransportFormula runs with a frequency-weight column', dict(case, impl_error=repr(ex)))
 
